@@ -56,6 +56,16 @@ class FakeDispatcher(object):
         FakeDispatcher.LOG.append(("written:%d" % self.idx) if self._connected else "dropped")
 
 
+class RaisingTop(Probe):
+    """the application side: while `armed`, receiving an entity raises (an application callback that fails)"""
+    armed = False
+
+    def receive(self, data):
+        if self.armed:
+            raise RuntimeError("application callback raised")
+        Probe.receive(self, data)
+
+
 class VTime(object):
     """virtual clock for YowPingThread: one permit = one second"""
 
@@ -107,7 +117,7 @@ def setup(chk):
 
 
 KINDS = ["connectReq", "connectEvt", "dConnected", "dClosed", "disconnectReq", "success", "failure", "streamError:conflict",
-         "streamError:ack", "streamError:xmlNotWellFormed", "streamError:unknown", "pingTick", "pong:1", "pong:0", "loop", "appSend"]
+         "streamError:ack", "streamError:xmlNotWellFormed", "streamError:unknown", "pingTick", "pong:1", "pong:0", "pongRaises", "loop", "appSend"]
 
 
 def cases(chk):
@@ -132,6 +142,11 @@ def cases(chk):
         ["connectReq", "dClosed", "loop", "connectEvt", "dConnected", "dClosed", "appSend", "loop"],
         ["connectReq", "disconnectReq", "loop", "connectReq", "dConnected", "disconnectReq", "loop"],
         ["connectReq", "dConnected", "success", "disconnectReq", "pingTick", "loop", "pingTick"],
+        ["connectReq", "dConnected", "success", "pingTick", "pongRaises", "pingTick", "pong:1", "pingTick", "pongRaises", "pingTick", "appSend"],
+        # a ping still unanswered when the peer closes; the announcement is delivered; a new connection's keep-alive starts from scratch
+        ["connectReq", "dConnected", "success", "pingTick", "dClosed", "loop", "connectReq", "dConnected", "success", "pingTick", "pong:1", "pingTick", "pingTick"],
+        ["connectEvt", "dConnected", "success", "dClosed", "pingTick", "loop", "connectReq", "pingTick", "dConnected", "success", "pingTick"],
+        ["connectReq", "dConnected", "success", "pingTick", "streamError:ack", "loop", "dConnected", "success", "pingTick", "pong:1", "pingTick"],
     ]
     for h in corpus:
         for opt in ({"reconnect": 1, "passive": 0}, {"reconnect": 0, "passive": 1}):
@@ -158,7 +173,7 @@ def cases(chk):
                 e = r.choice(["success", "success", "failure", r.choice(errs), "appSend", "dClosed", "disconnectReq"])
                 st = "authed" if e == "success" else "down" if e != "appSend" else st
             else:
-                e = r.choice(["pingTick", "pingTick", "pong:1", "pong:1", "pong:0", "appSend", r.choice(errs), "dClosed", "disconnectReq", "success"])
+                e = r.choice(["pingTick", "pingTick", "pingTick", "pong:1", "pong:1", "pongRaises", "pong:0", "appSend", r.choice(errs), "dClosed", "disconnectReq", "success"])
                 st = "down" if (e.startswith("streamError") or e in ("dClosed", "disconnectReq")) else st
             evs.append(e)
             if st == "down" and r.random() < 0.6:
@@ -277,7 +292,7 @@ def build(chk, opt):
         pass
     FakeDispatcher.created = []
     FakeDispatcher.LOG = []
-    near, top = Probe("near", forward=True), Probe("top")
+    near, top = Probe("near", forward=True), RaisingTop("top")
     prot = YowStackBuilder.getProtocolLayers()
     iface = YowInterfaceLayer()
     stack = YowStack((YowNetworkLayer, near, YowParallelLayer(prot), iface, top), reversed=False)
@@ -605,12 +620,16 @@ def run_case(chk, stream, case):
                     FakeDispatcher.LOG.append("tickLive")        # harness marker: a running keep-alive thread was due (it pings, written or not, or gives up)
             elif ev.startswith("pong"):
                 from yowsup.layers.protocol_iq.protocolentities import ResultIqProtocolEntity
-                fresh = ev.endswith(":1")
+                fresh = ev.endswith(":1") or ev == "pongRaises"
                 outstanding = list(getattr(iq, "_pingQueue", {}).keys())
                 pid = outstanding[-1] if (fresh and outstanding) else "stale-%d" % ei
                 if fresh and not outstanding:
                     executed[-1] = "pong:0"
-                net.receive(ResultIqProtocolEntity(_id=pid, _from="s.whatsapp.net").toProtocolTreeNode())
+                top.armed = executed[-1] == "pongRaises"      # the application's callback for this answer raises
+                try:
+                    net.receive(ResultIqProtocolEntity(_id=pid, _from="s.whatsapp.net").toProtocolTreeNode())
+                finally:
+                    top.armed = False
             elif ev == "loop":
                 from corr.c18 import run_loop
                 run_loop(stack)
@@ -722,8 +741,8 @@ def check_trace(case, executed, trace):
             unanswered = 0
         if (ev in ("disconnectReq", "failure") or ev.startswith("streamError")) and any(o.startswith("closed") for o in obs):
             unanswered = 0          # a disconnect request broadcast from above passed the keep-alive's layer: it stopped and forgot its pings
-        if ev == "pong:1":
-            unanswered = max(0, unanswered - 1)
+        if ev in ("pong:1", "pongRaises"):
+            unanswered = 0          # the answer to the latest ping clears the keep-alive's record (gotPong empties the queue)
         if ev == "pingTick":
             closed_now = any(o.startswith("closed") for o in obs)
             if closed_now and unanswered == 0:
